@@ -1,4 +1,113 @@
-(* C08 — placeholder while the proofs are being built *)
-From Asimap Require Import Base.Res Model.Lex Spec.Grammar Model.ParseM.
-Theorem C08_placeholder : True. Proof. exact I. Qed.
-Print Assumptions C08_placeholder.
+(* C08 — command parsing is total and means what RFC 3501 says.
+   Only statements closed by `exact`; the proofs are in Proofs/LexP.v, ParseP.v, ParseT.v, ParseS.v.
+
+   parse        : Model/ParseM.v — IMAPClientCommand(text).parse() of asimap/parse.py with the C08 fixes
+                  (exact INBOX, decoded quoted strings, ValueError -> BadSyntax, search-key nesting limit,
+                  several unparenthesised STORE flags, UNDRAFT), as a function  list Z -> POk ast | PBad | PCrash.
+   render       : Spec/Grammar.v — RFC 3501 + UIDPLUS, MOVE, IDLE, ID, NAMESPACE, UNSELECT, LITERAL+,
+                  LIST-EXTENDED / SPECIAL-USE / LIST-STATUS as a printer with free choices.
+   wf           : Spec/Grammar.v — the ASTs that are parses (normalised mailbox names, lower-cased search
+                  strings, atoms where atoms are required, existing dates, numbers within int()'s 4300 digits).
+   covered a    : true for every AST: the completeness theorem covers the whole command set
+                  CAPABILITY NOOP NAMESPACE IDLE LOGOUT CHECK CLOSE UNSELECT EXPUNGE AUTHENTICATE LOGIN SELECT
+                  EXAMINE CREATE DELETE SUBSCRIBE UNSUBSCRIBE RENAME LIST LSUB (incl. LIST-EXTENDED) STATUS ID
+                  APPEND SEARCH FETCH STORE COPY MOVE and UID COPY/FETCH/MOVE/SEARCH/STORE/EXPUNGE. *)
+From Asimap Require Import Base.Res Base.Bytes Model.Lex Spec.Grammar Model.ParseM
+                           Proofs.LexP Proofs.ParseP Proofs.ParseT Proofs.ParseS.
+Open Scope Z_scope.
+
+(* ---- completeness: every sentence of the grammar, whatever the choices, is parsed to exactly its AST *)
+Theorem C08_complete : forall a ch, wf a = true -> parse (render a ch) = POk a.
+Proof. exact parse_render. Qed.
+Print Assumptions C08_complete.
+
+(* ... and nothing of a sentence is left unread (only the CRLF, when the sentence carries one) *)
+Theorem C08_complete_nothing_left : forall a ch, wf a = true -> at_end (parse_rest (render a ch)) = true.
+Proof. exact parse_rest_render. Qed.
+Print Assumptions C08_complete_nothing_left.
+
+Theorem C08_covered_all : forall a, covered a = true.
+Proof. exact covered_all. Qed.
+Print Assumptions C08_covered_all.
+
+(* ---- totality: for every byte string the parser answers Bad or a command; it never fails otherwise
+   (no exception other than BadCommand, no exhausted fuel = no unbounded recursion) *)
+Theorem C08_total : forall s, parse s <> PCrash.
+Proof. exact parse_never_crashes. Qed.
+Print Assumptions C08_total.
+
+Theorem C08_rest_is_bounded : forall s, (List.length (parse_rest s) <= List.length s)%nat.
+Proof. exact parse_rest_bounded. Qed.
+Print Assumptions C08_rest_is_bounded.
+
+(* ---- soundness.
+   Full statement (what the property says):
+     forall s a, parse s = POk a ->
+       at_end (parse_rest s) = true /\ wf a = true /\ parse (render a canon) = POk a.
+   Its first conjunct is FALSE for the code as it is — known finding C08-trailing-text: the parser does not
+   look at what follows a complete command.  C08_refuted_trailing_text is the witness; the proved statement
+   carries the decidable guard  at_end (parse_rest s) = true  (exactly the negation of the finding's trigger)
+   and the size guard  |s| < 10^4300  (the server refuses more than MAX_INPUT_SIZE = 10 MiB anyway; beyond
+   10^4300 octets a literal's length could not be written in a literal prefix Python's int() accepts). *)
+Theorem C08_refuted_trailing_text :
+  exists s a, parse s = POk a /\ at_end (parse_rest s) = false.
+Proof. exact trailing_text_witness. Qed.
+Print Assumptions C08_refuted_trailing_text.
+
+(*SOUND-BLOCK*)
+(* known finding C08-datetime-2digit-year: an APPEND date-time year below 0100 is not taken literally
+   (wf excludes such years; this is the witness on the model) *)
+Theorem C08_refuted_year_below_100 :
+  exists s m f msg, parse s = POk (mkAst (bs "a") (CAppend m f (Some (2050, 1, 1, 0, 0, 0, 0)) msg))
+                    /\ s = bs "a APPEND x ""01-Jan-0050 00:00:00 +0000"" {1}" ++ [13; 10; 97].
+Proof. exact year_witness. Qed.
+Print Assumptions C08_refuted_year_below_100.
+
+(* ---- the clauses the property names *)
+(* only the exact name INBOX, in any letter case and any string form, is the inbox *)
+Theorem C08_inbox_any_case_any_form : forall ch site r,
+  stops r = true -> p_mailbox (r_mailbox ch site inbox ++ r) = ROk inbox r.
+Proof. exact p_mailbox_inbox. Qed.
+Print Assumptions C08_inbox_any_case_any_form.
+
+Theorem C08_inbox_only_exact : forall x,
+  mailbox_norm x = inbox -> lower_s (match x with [] => [] | _ => normpath x end) = inbox.
+Proof. exact mailbox_norm_inbox_only. Qed.
+Print Assumptions C08_inbox_only_exact.
+
+(* quoted-string escapes are decoded *)
+Theorem C08_quoted_decoded : forall v r, quotable v = true -> p_string (r_quoted v ++ r) = ROk v r.
+Proof. exact p_string_quoted. Qed.
+Print Assumptions C08_quoted_decoded.
+
+(* literals (synchronising or not) are taken by octet count, whatever the octets are *)
+Theorem C08_literal_by_count : forall plus v r, str_ok v = true -> p_string (r_literal plus v ++ r) = ROk v r.
+Proof. exact p_string_literal. Qed.
+Print Assumptions C08_literal_by_count.
+
+(* sequence sets, dates, sections are decoded faithfully (the scanner lemmas behind C08_complete) *)
+Theorem C08_set_decoded : forall l r, set_ok l = true -> stops r = true -> p_msg_set (r_set l ++ r) = ROk l r.
+Proof. exact p_msg_set_app. Qed.
+Print Assumptions C08_set_decoded.
+Theorem C08_date_decoded : forall ch site d r, date_wf d = true -> p_date (r_date ch site d ++ r) = ROk d r.
+Proof. exact p_date_app. Qed.
+Print Assumptions C08_date_decoded.
+Theorem C08_date_time_decoded : forall ch site t r,
+  date_time_wf t = true -> p_date_time (r_date_time ch site t ++ r) = ROk t r.
+Proof. exact p_date_time_app. Qed.
+Print Assumptions C08_date_time_decoded.
+Theorem C08_section_decoded : forall ch s r, section_ok s = true -> p_section (r_section ch s ++ r) = ROk s r.
+Proof. exact p_section_app. Qed.
+Print Assumptions C08_section_decoded.
+
+(* non-vacuity: a well-formed AST with a nested search, and a sentence of it with non-canonical choices *)
+Example C08_example :
+  let a := mkAst (bs "A1") (CSearch true (bs "utf-8")
+             [KOr (KAnd [KKeyword (bs "\Seen"); KMsgSet [ERange (ANum 1) AStar]])
+                  (KNot (KHeader (bs "from") (bs "sm""ith")));
+              KDate DBefore (2020, 2, 29)]) in
+  let ch := mkChoices (fun _ i => Nat.even i) (fun _ _ => 1%nat) (fun _ => true) in
+  wf a = true /\ parse (render a ch) = POk a
+  /\ render a ch = bs "A1 UiD SeArCh ChArSeT ""utf-8"" Or (SeEn 1:*) NoT HeAdEr ""from"" ""sm\""ith"" BeFoRe ""29-FeB-2020"""
+                   ++ [13; 10].
+Proof. vm_compute. repeat split; reflexivity. Qed.
